@@ -261,6 +261,7 @@ func c09Run(c *core.Ctx) {
 	}
 	c.Set("evaluations", evals.Load())
 	c.Set("distinct_nontrivial", distinct.Load())
+	c.ReverseOrderPass("mc-shim")
 	c.Set("instantiations", inst)
 	c.Set("instantiations_with_exhaustive_source_domain", exh)
 	c.Set("exhaustive", exh == inst)
@@ -272,6 +273,7 @@ func init() {
 	core.Register(&core.Prop{
 		ID: "C09", Level: "exploration", Design: "§5 C09",
 		Run:     c09Run,
+		Worker:  core.SweepWorker,
 		RunCase: func(c *core.Ctx, raw json.RawMessage) []F { return c09EvalCase(decode[c09Case](raw)) },
 	})
 }
